@@ -385,3 +385,121 @@ def run_threaded(behaviours, seed_hex="5e" * 64, switch=1e-6):
     if errs:
         raise errs[0]
     return W
+
+
+def stress_threads(seconds=8, seed=0, nthreads=12, switch=1e-6):
+    """Free-running threads on ONE shared wallet: each thread repeatedly looks nodes up by path,
+    derives paths from shared intermediate nodes, bulk-generates children and steps its own address
+    generator; every result is compared with a table computed beforehand, single-threaded, on fresh
+    objects.  Raises Mismatch on the first difference."""
+    import random
+    import sys
+    import time
+    from btc_hd_wallet import PaperWallet
+    seed_hex = "5e" * 64
+    idxs = [0, 1, HARD]
+    ref_w = PaperWallet.from_bip39_seed_hex(seed_hex)
+    table = {}
+
+    def ref(path):
+        if path not in table:
+            n = PaperWallet.from_bip39_seed_hex(seed_hex).master
+            for i in path:
+                n = n.ckd(i)
+            table[path] = (World.fields(n), ref_w.p2wpkh_address(n))
+        return table[path]
+    paths = [(a,) for a in idxs] + [(a, b) for a in idxs for b in idxs] + [(a, b, c) for a in idxs for b in idxs[:3] for c in idxs[:2]]
+    for p in paths:
+        ref(p)
+    for a in idxs:
+        for j in range(12):
+            ref((a, j))
+    shared = PaperWallet.from_bip39_seed_hex(seed_hex)
+    mids = {(a,): shared.master.ckd(a) for a in idxs}
+    root_xprv = shared.master.extended_private_key()
+    errs = []
+    calls = [0]
+    stop = time.time() + seconds
+
+    def work(k):
+        rng = random.Random("%d/%d" % (seed, k))
+        gen = None
+        gpos = -1
+        gnode = None
+        try:
+            while time.time() < stop and not errs:
+                op = rng.randrange(5)
+                if op == 0:
+                    p = rng.choice(paths)
+                    n = shared.by_path(path_str(p))
+                    if World.fields(n) != ref(p)[0]:
+                        raise Mismatch("purity", "threads: by_path(%s) returned a node that is not the reference" % path_str(p))
+                elif op == 1:
+                    a = rng.choice(idxs)
+                    tail = rng.choice([q[1:] for q in paths if len(q) > 1 and q[0] == a])
+                    n = mids[(a,)].derive_path(list(tail))
+                    if World.fields(n) != ref((a,) + tail)[0]:
+                        raise Mismatch("purity", "threads: derive_path(%s) from the shared node m/%s is not the reference" % (list(tail), a))
+                elif op == 2:
+                    a = rng.choice(idxs)
+                    st = rng.randrange(0, 8)
+                    kids = mids[(a,)].generate_children((st, st + 3))
+                    for j, n in enumerate(kids):
+                        if World.fields(n) != ref((a, st + j))[0]:
+                            raise Mismatch("purity", "threads: generate_children on m/%s returned a wrong child" % a)
+                elif op == 3:
+                    if gen is None or gpos > 8:
+                        a = rng.choice(idxs)
+                        gnode, gen, gpos = (a,), shared.address_generator(mids[(a,)]), -1
+                    if gpos < 0 or rng.random() < 0.6:
+                        item, gpos = next(gen), gpos + 1
+                    else:
+                        item, gpos = gen.send(2), gpos + 2
+                    if item[1] != ref(gnode + (gpos,))[1]:
+                        raise Mismatch("purity", "threads: generator on m/%s yielded %r at position %d" % (gnode[0], item, gpos))
+                else:
+                    a = rng.choice(idxs)
+                    c = mids[(a,)].ckd(rng.randrange(12))
+                    if World.fields(c) != ref((a, c.index))[0]:
+                        raise Mismatch("purity", "threads: ckd on shared node m/%s is not the reference" % a)
+                calls[0] += 1
+        except Mismatch as m:
+            errs.append(m)
+        except Exception as ex:
+            errs.append(Mismatch("purity", "threads: unexpected %r" % ex))
+    # Preemption is INJECTED at line boundaries of the library's stateful shell (bip32.py,
+    # base_wallet.py, paper_wallet.py) through the interpreter's trace hook: after a traced line a
+    # thread gives up the GIL with some probability, so the windows between "derive", "append to
+    # children" and "read children / cursor" are actually hit (free-running threads almost never
+    # switch there because a derivation spends its time inside the curve arithmetic).
+    targets = ("bip32.py", "base_wallet.py", "paper_wallet.py")
+    yrng = random.Random(seed)
+
+    hot = ("derive_path", "generate_children", "address_generator", "by_path", "group")
+
+    def local(frame, event, arg):
+        if event == "line" and (frame.f_code.co_name in hot or yrng.random() < 0.25):
+            time.sleep(0.00002)
+        return local
+
+    def tracer(frame, event, arg):
+        if event == "call" and frame.f_code.co_filename.endswith(targets) and "btc_hd_wallet" in frame.f_code.co_filename:
+            return local
+        return None
+    old = sys.getswitchinterval()
+    sys.setswitchinterval(switch)
+    threading.settrace(tracer)
+    try:
+        ths = [threading.Thread(target=work, args=(k,)) for k in range(nthreads)]
+        for t in ths:
+            t.start()
+        for t in ths:
+            t.join()
+    finally:
+        threading.settrace(None)
+        sys.setswitchinterval(old)
+    if errs:
+        raise errs[0]
+    if shared.master.extended_private_key() != root_xprv:
+        raise Mismatch("purity", "threads: the root key changed")
+    return {"threads": nthreads, "calls": calls[0], "seconds": seconds}
